@@ -3,6 +3,6 @@
 # share its obligations most directly (sessions: C02; chunk serializer: C01; AMF0: C04; handshake: C11)
 # usage: tools/benignpass_own.sh [jobs] [egrep filter on the edit id]
 cd "$(dirname "$0")/.."
-extra() { case "$1" in C09|C10) echo "$1,C02";; C17) echo "C17";; C07) echo "C07,C01";; C06) echo "C06,C15";; C12) echo "C12,C04";; C04) echo "C04,C12";; C05) echo "C05,C11";; C13) echo "C13";; *) echo "$1";; esac; }
+extra() { case "$1" in C09|C10) echo "$1,C15";; C17) echo "C17";; C07) echo "C07,C01";; C06) echo "C06,C15";; C12) echo "C12,C04";; C04) echo "C04,C12";; C05) echo "C05,C11";; C13) echo "C13";; *) echo "$1";; esac; }
 export -f extra
 ls benign | grep -E "${2:-.}" | xargs -P "${1:-4}" -I{} bash -c 'id={}; p=${id%-*}; python3 tools/benigntest.py $id benign/$id/patch.diff --no-suite --jobs 2 --checks $(extra $p) 2>&1 | grep -E "^check " | tr "\n" " "; echo " <- $id"'
